@@ -196,4 +196,65 @@ def run(db, tier):
     cl = [c for c in db.children.get(g.id, []) if any(tt.get("f", "").endswith("::emit") for _, tt in c.calls())]
     rep.check(bool(bs) and bool(cl), "R-JUMP", "generate_offset_labels|binary_search-or-error", g.loc,
               "jump offsets are looked up with binary_search and a miss is an emitted error", "jump offsets are no longer validated against the instruction offsets")
+    # ---------------- R-PRECOND: helpers that assert a precondition on data derived from the file
+    rep.rule("R-PRECOND", "a helper that asserts a precondition on file-derived data is called only where a dominating test has established it")
+    bc = "llir::raise::recognize::bitmask_bits_are_contiguous"
+    hb = db.fn(bc)
+    rep.fn(hb)
+    asserts_nonempty = any(t.get("f", "").endswith("BitSet32::is_empty") for _, t in hb.calls()) and any(PANIC.match(t.get("f", "")) for _, t in hb.calls())
+    sites = []
+    for g in db.fns.values():
+        if g.gen:
+            continue
+        for bi, t in g.calls():
+            if t.get("f") == bc:
+                sites.append((g, bi, t))
+    rep.floor("call sites of bitmask_bits_are_contiguous", len(sites), 1)
+    for k_, (g, bi, t) in enumerate(sorted(sites, key=lambda x: (x[0].id, x[1]))):
+        rep.fn(g)
+        dg = flow.Defs(g)
+        ok = not asserts_nonempty
+        why = "the helper no longer asserts"
+        if asserts_nonempty:
+            why = "no dominating test shows the mask is non-empty"
+            for gb, gt in g.calls():
+                c = gt.get("f", "")
+                if gb == bi:
+                    continue
+                if c.endswith("PartialEq::eq") or c.endswith("PartialEq::ne"):
+                    sa = dg._op_sources(gt["a"][0], 0, set(), True) | dg._op_sources(gt["a"][1], 0, set(), True)
+                    if flow.has_call_source(sa, "BitSet32::first") and any(x[0] == "field" and x[1] == "core::option::Option::Some" or (x[0] == "agg" and "Option::Some" in str(x[1])) for x in sa):
+                        vals = flow.accepted_when(g, {"dest": place_local(gt["d"])}, bi, flow.innermost_header(g, bi))
+                        want = c.endswith("::eq")
+                        if vals is not None and vals == {want}:
+                            ok = True
+                            why = "reached only when mask.first() == Some(_)"
+                elif c.endswith("BitSet32::is_empty"):
+                    vals = flow.accepted_when(g, {"dest": place_local(gt["d"])}, bi, flow.innermost_header(g, bi))
+                    if vals is not None and vals == {False}:
+                        ok = True
+                        why = "reached only when !mask.is_empty()"
+        rep.check(ok, "R-PRECOND", "bitmask_bits_are_contiguous|%s|call-%d" % (g.id, k_ + 1), "%s:%d" % (g.file, t["ln"]), why,
+                  "bitmask_bits_are_contiguous asserts a non-empty mask, but this call is not behind a test that the (file-supplied) difficulty mask has a bit set: " + why)
+
+    # ---------------- R-IMM-INV: an argument whose encoding is always an immediate is never decoded as a register
+    rep.rule("R-IMM-INV", "decode_args_with_abi marks an argument as a register only on paths where enc.is_always_immediate() returned false "
+                          "(later passes call expect_immediate_int() on jump offsets/times and assert !is_reg)")
+    da = db.fn("llir::raise::early::decode_args_with_abi")
+    dd = flow.Defs(da)
+    safe, res = flow.implies_not_call(da, "ArgEncoding::is_always_immediate", dd)
+    n_sa = 0
+    for bi, b in enumerate(da.blocks):
+        for st in b["s"]:
+            if st["r"] == "agg" and st.get("adt") == "llir::SimpleArg":
+                n_sa += 1
+                o = dict(zip(st["fn"], st["ops"])).get("is_reg")
+                ok = o is not None and (("c" in o and str(o.get("c")) == "false") or op_local(o) in safe)
+                rep.check(ok, "R-IMM-INV", "decode_args_with_abi|SimpleArg-%d" % n_sa, "%s:%d" % (da.file, st["ln"]),
+                          "is_reg is false, or true only where is_always_immediate() was false",
+                          "is_reg can be true for an argument whose encoding is always an immediate (jump offset / jump time / imm): "
+                          "extract_jump_args_by_signature then panics in expect_immediate_int on file-supplied values")
+    rep.floor("SimpleArg constructions in decode_args_with_abi", n_sa, 2)
+    rep.check(bool(res), "R-IMM-INV", "decode_args_with_abi|consults is_always_immediate", da.loc, "is_always_immediate() is consulted", "is_always_immediate() is never consulted")
+
     return rep
